@@ -14,6 +14,12 @@ SCRIPTS = [
     "x = 70000; x++; if (Mode == 1) { return nosuch(1); } if (Mode == 3) { a = b = 3; } return [x, 70000];",
     "function r(n) { if (n == 0) { return boom(); } return r(n - 1); } function boom() { foreach a in [1, 2] { foreach b in [3] { return 1 % 0; } } } if (Mode > 0) { return r(Mode); } c = c + 1; return c;",
     "foreach k, v in Meta { if (Mode == 2) { return k; } seen = k; } switch (Mode) { case 1 { return t(1) / 0; } case 3 { foreach q in [1] { return q; } } default { } } return seen;",
+    # numbers written as literals reach ++ / -- / compound assignment through parameters, loop variables and locals: the literal must
+    # denote the same number in every later run
+    "function next(n) { n++; return n; } function prev(n) { n--; return n; } return [next(1.5), prev(100000), next(65535), next(7)];",
+    "t = 0; foreach p in [9.5, 20.25, 70000] { p++; t = t + p; } foreach i, q in [2.5, 100000] { q--; i++; t = t + q + i; } return t;",
+    "function f(a, b) { local c; c = 99999.5; c++; a += 1; b *= 2; return [a, b, c]; } return [f(1.25, 70001), f(1.25, 70001)];",
+    "function g(n) { foreach k in [n] { k++; n--; } return [n, 3.75]; } x = 3.75; return [g(3.75), g(x), x];",
 ]
 
 class C07(Prop):
@@ -50,6 +56,9 @@ class C07(Prop):
         n = 8000 if tier == "thorough" else 120
         for _ in range(n):
             out.append(Case("run", self.history(rng, rng.choice(SCRIPTS), rng.randint(3, 10)), "scenario"))
+        for sc in SCRIPTS[-4:]:
+            for _ in range(3):
+                out.append(Case("run", self.history(rng, sc, rng.randint(3, 5)), "literal-scenario"))
         for _ in range(n):
             g = gen.Gen(rng, max_depth=2, illtyped=0.1)
             src = g.program(nstmts=rng.randint(2, 5), nfuncs=rng.randint(0, 2), depth=2)
